@@ -183,8 +183,11 @@ def kron_obj(factors, coeff=1):
             return kron_obj([m2_mul(x, y) for x, y in zip(fa, fb)], a.attrs["coeff"] * b.attrs["coeff"])
         if op == "MatMult" and isinstance(other, Obj) and other.kind in ("ordering", "ordering.T", "OR"):
             return NotImplemented
+        if op == "Mult" and isinstance(other, int) and not isinstance(other, bool):
+            return kron_obj(o.attrs["factors"], o.attrs["coeff"] * other)         # an integer multiple (a sign, mostly)
         return Unk("kron arith")
     o.methods["binop"] = binop
+    o.methods["unop"] = lambda op: kron_obj(o.attrs["factors"], -o.attrs["coeff"]) if op == "USub" else (o if op == "UAdd" else Unk("kron unop"))
     o.getitem = lambda idx: Obj("column-of", {"of": o, "index": idx})
     return o
 
@@ -354,7 +357,8 @@ def kronecker(ctx):
 
 
 MB_CONFIGS = ("default d=3", "default PGA d=3", "explicit signature [-1,0,1,1]", "named basis 2DPGA", "named basis 3DPGA",
-              "custom basis, spelled blades", "custom basis, permuted generators", "custom basis, only an orientation differs")
+              "custom basis, spelled blades", "custom basis, permuted generators", "custom basis, only an orientation differs",
+              "custom basis, an even permutation of the top blade")
 
 
 def _mb_kwargs(repo, label):
@@ -368,10 +372,12 @@ def _mb_kwargs(repo, label):
             "custom basis, permuted generators": dict(p=2, q=1, basis=["e", "e2", "e3", "e1", "e23", "e31", "e12", "e123"]),
             # every blade at its default position, one of them spelled with the other orientation
             "custom basis, only an orientation differs": dict(p=3, basis=["e", "e1", "e2", "e3", "e12", "e31", "e23", "e123"]),
+            # unsorted spellings of BOTH parities: e231 is an even permutation of e123 (same orientation), e31 an odd one of e13
+            "custom basis, an even permutation of the top blade": dict(p=2, q=1, basis=["e", "e1", "e2", "e3", "e12", "e31", "e23", "e231"]),
             }[label]
 
 
-@rule("C14.matrix-basis", props=["C14", "C18"], min_instances=8, mutants=[
+@rule("C14.matrix-basis", props=["C14", "C18"], min_instances=9, mutants=[
     ("a custom basis with the default blade sets is taken for the default basis", ("matrixreps", "    if blades is not None:\n        # A custom basis", "    if blades is not None and [tuple(sorted(blade)) for blade in blades] != [comb for i in range(d + 1) for comb in combinations(range(d), r=i)]:\n        # A custom basis")),
     ("null generator literal transposed (first column zero)", ("matrixreps", "Z2 = np.array([[0,0], [1,0]])", "Z2 = np.array([[0,1], [0,0]])")),
     ("matrix basis ignores the basis of the algebra", ("algebra", "        return matrix_rep(self.p, self.q, self.r, signature=self.signature, blades=blades)", "        return matrix_rep(self.p, self.q, self.r, signature=self.signature)")),
